@@ -18,8 +18,8 @@ from concurrent.futures import ThreadPoolExecutor
 
 import vlib
 
-PLAN_ACTIONS = ['DoPlanLevel', 'DoPlan', 'DoPlanOptimize', 'DoForceFull', 'DoRelease', 'DoSetupAdd', 'DoStart']
-ENV_ACTIONS = ['DoSnapshot', 'DoFinish']
+PLAN_ACTIONS = ['DoPlanLevel', 'DoPlan', 'DoPlanOptimize', 'DoForceFull', 'ReleaseAny', 'DoSetupAdd', 'DoStart']
+ENV_ACTIONS = ['DoSnapshot', 'FinishAny']
 
 
 def hist_lines(stdout):
@@ -91,7 +91,8 @@ def run(ctx):
 
     mcs = ['MCwide', 'MClong', 'MCenv'] + (['MClvl1'] if thorough else [])
     gens = ['Gen', 'Genlong']
-    w = 4
+    w = max(1, min(4, vlib.NCPU))                  # TLC workers per run
+    par = max(1, vlib.NCPU // 4)                   # concurrent TLC runs (1 when only 4 cpus are granted)
     to = 2400 if thorough else 1500
 
     def mc(name):
@@ -103,10 +104,10 @@ def run(ctx):
         return name, r
 
     def lead(name):
-        r = ctx.tlc('Planner', f'Planner.{name}_quick.cfg', timeout=300, workers=2, tag=name, count=False)
+        r = ctx.tlc('Planner', f'Planner.{name}_quick.cfg', timeout=900, workers=min(2, w), tag=name, count=False)
         return name, r
 
-    with ThreadPoolExecutor(max_workers=4) as ex:
+    with ThreadPoolExecutor(max_workers=par) as ex:
         f_mc = [ex.submit(mc, n) for n in mcs]
         f_lead = [ex.submit(lead, n) for n in ('F2inuse', 'F2oversize')]
         f_gen = [ex.submit(gen, n) for n in gens]
@@ -121,7 +122,8 @@ def run(ctx):
         if not r.ok:
             raise vlib.Inconclusive(f'TLC did not pass on Planner.{name}_{tier}.cfg: violated={r.violated}\n'
                                     + '\n'.join(r.stdout.splitlines()[-30:]))
-        no_env = name == 'MClvl1' or (name == 'MCwide' and not thorough)      # configs with MaxEnv = 0
+        with open(os.path.join(ctx.spec_dir, f'Planner.{name}_{tier}.cfg')) as f:
+            no_env = re.search(r'MaxEnv\s*=\s*0\b', f.read()) is not None      # configs without environment steps
         need = PLAN_ACTIONS + ([] if no_env else ENV_ACTIONS)
         ctx.check_coverage(r, need)
         ctx.extra_cov[f'model_{name}_distinct_states'] = r.distinct
@@ -157,8 +159,8 @@ def run(ctx):
 
     # 4. random long behaviours
     sims = [('Sim', 150, 21), ('Simrun', 100, 20)] if not thorough else [('Sim', 2500, 32), ('Simrun', 1500, 28)]
-    with ThreadPoolExecutor(max_workers=2) as ex:
-        fs = [ex.submit(tlc_sim, ctx, 'Planner', f'Planner.{n}_{tier}.cfg', num, depth, 4, 900 if thorough else 600, n)
+    with ThreadPoolExecutor(max_workers=min(2, par)) as ex:
+        fs = [ex.submit(tlc_sim, ctx, 'Planner', f'Planner.{n}_{tier}.cfg', num * 4 // w, depth, w, 900 if thorough else 600, n)
               for n, num, depth in sims]
         for (n, _, _), f in zip(sims, fs):
             hs = f.result()
